@@ -153,96 +153,139 @@ def main():
     cover_status = {}
     injected = set()
     all_stubs = []
+    def run_unit(uname):
+        """one verifier unit on its own scratch copy; returns its partial results (merged below)"""
+        R_ = dict(discharged={}, failed={}, undec=[], bounded_ok={}, unit_reports=[], total_checks=0, solver_s=0.0, cmds=[], files_scanned=set(),
+                  replays_extra={}, replay_texts={}, rewrites=[], unreachable_in={}, cover_status={}, all_stubs=[])
+        discharged, failed, undec, bounded_ok, unit_reports = R_['discharged'], R_['failed'], R_['undec'], R_['bounded_ok'], R_['unit_reports']
+        cmds, files_scanned, replays_extra, replay_texts, rewrites = R_['cmds'], R_['files_scanned'], R_['replays_extra'], R_['replay_texts'], R_['rewrites']
+        unreachable_in, cover_status, all_stubs = R_['unreachable_in'], R_['cover_status'], R_['all_stubs']
+        total_checks = 0
+        solver_s = 0.0
+        injected = set()
+        unit = P.UNITS[uname]
+        try:
+          with shv.Scratch(keep=a.keep) as sc:
+            unit = P.UNITS[uname]
+            if unit['engine'] == 'kani':
+                hs = {h: hc for h, hc in unit['harnesses'].items()
+                      if pid in hc['props'] and (a.tier == 'thorough' or (hc.get('tier', 'quick') == 'quick' and h not in cfg.get('quick_drop', ())))}
+                if a.only:
+                    hs = {h: hc for h, hc in hs.items() if re.search(a.only, h)}
+                if not hs:
+                    return R_
+                for inj in unit['inject']:
+                    rel, hf = inj[0], inj[1]
+                    tag = (rel, hf)
+                    if tag not in injected:
+                        sc.inject(rel, hf, *(inj[2:4]))
+                        injected.add(tag)
+                    files_scanned.add(hf)
+                for rel, pat, rep, mn in unit.get('rewrite', []):
+                    n = sc.rewrite(rel, pat, rep, mn)
+                    rewrites.append('%s: %d x /%s/ -> %s' % (rel, n, pat, rep))
+                for f in unit.get('scan', []):
+                    files_scanned.add(f)
+                to = unit.get('timeout', {}).get(a.tier, 900 if a.tier == 'quick' else 3600)
+                r = shv.run_kani(sc, unit, sorted(hs), to)
+                cmds.append(r['cmd'])
+                all_stubs += r.get('stubs', [])
+                if r['compile_error']:
+                    undec.append('unit %s: no verifier result (%s)' % (uname, r['compile_error'][:1500]))
+                    unit_reports.append({'unit': uname, 'error': r['compile_error'][:400]})
+                    return R_
+                for h, hc in hs.items():
+                    if h not in r['harnesses']:
+                        undec.append('harness %s produced no result (anchor lost or harness not found)' % h)
+                        continue
+                    hres = r['harnesses'][h]
+                    if not hres['checks']:
+                        undec.append('harness %s: the verifier reported status %s without any check result (crash / out of memory / timeout)' % (h, hres['status']))
+                        continue
+                    d, f, u, cov, n, unr = classify(pid, h, hc, hres, P.OBLIGATIONS)
+                    for cd, cst in cov:
+                        cover_status.setdefault(cd, []).append((cst, h, bool(f) or hres['status'] != 'Success'))
+                    for o in unr:
+                        if P.belongs(o, pid):
+                            unreachable_in.setdefault(o, []).append(h)
+                    total_checks += n
+                    solver_s += hres.get('solver_s') or 0.0
+                    for k, v in d.items():
+                        if not P.belongs(k, pid):
+                            continue
+                        v = dict(v, engine='kani/cbmc', solver=hres['cbmc_stats'] and 'cadical' or 'cadical', harness_time_s=hres['duration_s'])
+                        if hc.get('kind', 'proved') == 'bounded' or P.OBLIGATIONS.get(k, {}).get('kind', 'proved').startswith('bounded'):
+                            v['bound'] = hc.get('bound', P.OBLIGATIONS.get(k, {}).get('kind'))
+                            bounded_ok[k] = v
+                        else:
+                            discharged.setdefault(k, v)
+                    for k, v in f.items():
+                        if P.belongs(k, pid):
+                            failed[k] = dict(v, unit=uname)
+                            tail = r['stdout_tail']
+                            i = tail.find('Checking harness')
+                            replays_extra[k] = 'verifier output (kani harness %s):\n%s' % (hres['id'], tail[i:] if i >= 0 else tail[-2500:])
+                    undec += u
+                    unit_reports.append({'unit': uname, 'harness': h, 'status': hres['status'], 'checks': n,
+                                         'covers': ['%s [%s]' % c for c in cov][:12], 'time_s': hres['duration_s'],
+                                         'solver_s': hres.get('solver_s')})
+            elif unit['engine'] in ('cbmc', 'verus', 'static'):
+                mod = __import__(unit['module'])
+                r = getattr(mod, unit['entry'])(sc, unit, pid, a.tier)
+                cmds += r.get('cmds', [])
+                total_checks += r.get('n_checks', 0)
+                solver_s += r.get('solver_s', 0.0)
+                for k, v in r.get('discharged', {}).items():
+                    if P.belongs(k, pid):
+                        if v.get('bound') or P.OBLIGATIONS.get(k, {}).get('kind', 'proved').startswith('bounded'):
+                            bounded_ok[k] = dict(v, bound=v.get('bound') or P.OBLIGATIONS[k]['kind'])
+                        else:
+                            discharged.setdefault(k, v)
+                for k, v in r.get('failed', {}).items():
+                    if P.belongs(k, pid):
+                        failed[k] = v
+                        replays_extra[k] = r.get('raw', '')[-4000:]
+                        if v.get('replayed'):
+                            replay_texts[k] = v['replayed']
+                undec += r.get('undecided', [])
+                unit_reports += r.get('reports', [])
+                for f in r.get('scan', []):
+                    files_scanned.add(f)
+        except Undecided as e:
+            undec.append(str(e))
+        R_['total_checks'] = total_checks
+        R_['solver_s'] = solver_s
+        return R_
+
     try:
-        with shv.Scratch(keep=a.keep) as sc:
-            for uname in cfg['units'] + (cfg.get('units_thorough', []) if a.tier == 'thorough' else []):
-                unit = P.UNITS[uname]
-                sc.refresh()
-                injected.clear()
-                if unit['engine'] == 'kani':
-                    hs = {h: hc for h, hc in unit['harnesses'].items()
-                          if pid in hc['props'] and (a.tier == 'thorough' or (hc.get('tier', 'quick') == 'quick' and h not in cfg.get('quick_drop', ())))}
-                    if a.only:
-                        hs = {h: hc for h, hc in hs.items() if re.search(a.only, h)}
-                    if not hs:
-                        continue
-                    for inj in unit['inject']:
-                        rel, hf = inj[0], inj[1]
-                        tag = (rel, hf)
-                        if tag not in injected:
-                            sc.inject(rel, hf, *(inj[2:4]))
-                            injected.add(tag)
-                        files_scanned.add(hf)
-                    for rel, pat, rep, mn in unit.get('rewrite', []):
-                        n = sc.rewrite(rel, pat, rep, mn)
-                        rewrites.append('%s: %d x /%s/ -> %s' % (rel, n, pat, rep))
-                    for f in unit.get('scan', []):
-                        files_scanned.add(f)
-                    to = unit.get('timeout', {}).get(a.tier, 900 if a.tier == 'quick' else 3600)
-                    r = shv.run_kani(sc, unit, sorted(hs), to)
-                    cmds.append(r['cmd'])
-                    all_stubs += r.get('stubs', [])
-                    if r['compile_error']:
-                        undec.append('unit %s: no verifier result (%s)' % (uname, r['compile_error'][:1500]))
-                        unit_reports.append({'unit': uname, 'error': r['compile_error'][:400]})
-                        continue
-                    for h, hc in hs.items():
-                        if h not in r['harnesses']:
-                            undec.append('harness %s produced no result (anchor lost or harness not found)' % h)
-                            continue
-                        hres = r['harnesses'][h]
-                        if not hres['checks']:
-                            undec.append('harness %s: the verifier reported status %s without any check result (crash / out of memory / timeout)' % (h, hres['status']))
-                            continue
-                        d, f, u, cov, n, unr = classify(pid, h, hc, hres, P.OBLIGATIONS)
-                        for cd, cst in cov:
-                            cover_status.setdefault(cd, []).append((cst, h, bool(f) or hres['status'] != 'Success'))
-                        for o in unr:
-                            if P.belongs(o, pid):
-                                unreachable_in.setdefault(o, []).append(h)
-                        total_checks += n
-                        solver_s += hres.get('solver_s') or 0.0
-                        for k, v in d.items():
-                            if not P.belongs(k, pid):
-                                continue
-                            v = dict(v, engine='kani/cbmc', solver=hres['cbmc_stats'] and 'cadical' or 'cadical', harness_time_s=hres['duration_s'])
-                            if hc.get('kind', 'proved') == 'bounded' or P.OBLIGATIONS.get(k, {}).get('kind', 'proved').startswith('bounded'):
-                                v['bound'] = hc.get('bound', P.OBLIGATIONS.get(k, {}).get('kind'))
-                                bounded_ok[k] = v
-                            else:
-                                discharged.setdefault(k, v)
-                        for k, v in f.items():
-                            if P.belongs(k, pid):
-                                failed[k] = dict(v, unit=uname)
-                                tail = r['stdout_tail']
-                                i = tail.find('Checking harness')
-                                replays_extra[k] = 'verifier output (kani harness %s):\n%s' % (hres['id'], tail[i:] if i >= 0 else tail[-2500:])
-                        undec += u
-                        unit_reports.append({'unit': uname, 'harness': h, 'status': hres['status'], 'checks': n,
-                                             'covers': ['%s [%s]' % c for c in cov][:12], 'time_s': hres['duration_s'],
-                                             'solver_s': hres.get('solver_s')})
-                elif unit['engine'] in ('cbmc', 'verus', 'static'):
-                    mod = __import__(unit['module'])
-                    r = getattr(mod, unit['entry'])(sc, unit, pid, a.tier)
-                    cmds += r.get('cmds', [])
-                    total_checks += r.get('n_checks', 0)
-                    solver_s += r.get('solver_s', 0.0)
-                    for k, v in r.get('discharged', {}).items():
-                        if P.belongs(k, pid):
-                            if v.get('bound') or P.OBLIGATIONS.get(k, {}).get('kind', 'proved').startswith('bounded'):
-                                bounded_ok[k] = dict(v, bound=v.get('bound') or P.OBLIGATIONS[k]['kind'])
-                            else:
-                                discharged.setdefault(k, v)
-                    for k, v in r.get('failed', {}).items():
-                        if P.belongs(k, pid):
-                            failed[k] = v
-                            replays_extra[k] = r.get('raw', '')[-4000:]
-                            if v.get('replayed'):
-                                replay_texts[k] = v['replayed']
-                    undec += r.get('undecided', [])
-                    unit_reports += r.get('reports', [])
-                    for f in r.get('scan', []):
-                        files_scanned.add(f)
+        unames = cfg['units'] + (cfg.get('units_thorough', []) if a.tier == 'thorough' else [])
+        import concurrent.futures
+        par = int(os.environ.get('SHV_UNIT_PAR', '3'))
+        with concurrent.futures.ThreadPoolExecutor(max_workers=max(1, par)) as ex:
+            parts = list(ex.map(run_unit, unames))
+        for R_ in parts:
+            for k_, v_ in R_['discharged'].items():
+                discharged.setdefault(k_, v_)
+            failed.update(R_['failed'])
+            undec += R_['undec']
+            for k_, v_ in R_['bounded_ok'].items():
+                bounded_ok.setdefault(k_, v_)
+            unit_reports += R_['unit_reports']
+            total_checks += R_['total_checks']
+            solver_s += R_['solver_s']
+            cmds += R_['cmds']
+            files_scanned |= R_['files_scanned']
+            replays_extra.update(R_['replays_extra'])
+            replay_texts.update(R_['replay_texts'])
+            rewrites += R_['rewrites']
+            for k_, v_ in R_['unreachable_in'].items():
+                unreachable_in.setdefault(k_, []).extend(v_)
+            for k_, v_ in R_['cover_status'].items():
+                cover_status.setdefault(k_, []).extend(v_)
+            all_stubs += R_['all_stubs']
+        import contextlib
+        need_replay = any(P.REPLAYERS.get(o) for o in failed)
+        with (shv.Scratch(keep=a.keep) if need_replay else contextlib.nullcontext()) as sc:
             # counterexample replay against the real code, while the scratch copy still exists:
             # first the verifier's concrete values (needs the injected harness), then - on the pristine
             # tree again - the native run of the real code
